@@ -536,19 +536,34 @@ func (p *Prog) buildCut(fn *ssa.Function, gates []Gate) (cut *Cut, nEdges int) {
 			continue
 		}
 		var del [2]bool
+		tFacts, fFacts := condAtoms(ifi)
 		for _, g := range gates {
 			if g.Edges == nil {
 				continue
 			}
-			t, f := g.Edges(p, ifi)
-			if t && f {
-				continue // a gate cannot pass on both edges; ignore malformed match
+			holds := func(fc condFact) bool {
+				fake := ifi
+				if fc.v != ifi.Cond {
+					fake = &ssa.If{Cond: fc.v}
+				}
+				t, f := g.Edges(p, fake)
+				if t && f {
+					return false
+				}
+				if fc.truth {
+					return t
+				}
+				return f
 			}
-			if t {
-				del[0] = true
+			for _, fc := range tFacts {
+				if holds(fc) {
+					del[0] = true
+				}
 			}
-			if f {
-				del[1] = true
+			for _, fc := range fFacts {
+				if holds(fc) {
+					del[1] = true
+				}
 			}
 		}
 		if del[0] || del[1] {
@@ -557,6 +572,60 @@ func (p *Prog) buildCut(fn *ssa.Function, gates []Gate) (cut *Cut, nEdges int) {
 		}
 	}
 	return cut, nEdges
+}
+
+// condFact: a condition value known to have the given truth on an edge.
+type condFact struct {
+	v     ssa.Value
+	truth bool
+}
+
+// condAtoms decomposes the condition of an If into the facts known on its true edge and on its
+// false edge. go/ssa lowers `a && b` used as a value (e.g. a switch-case condition) to a phi
+// [false, b] in a "binop.done" block and `a || b` to a phi [true, b]: on the true edge of an and-form
+// every operand is true, on the false edge of an or-form every operand is false; the other edge of
+// such a phi carries no definite fact.
+func condAtoms(ifi *ssa.If) (tFacts, fFacts []condFact) {
+	phi, ok := ifi.Cond.(*ssa.Phi)
+	if !ok || phi.Block().Comment != "binop.done" {
+		return []condFact{{ifi.Cond, true}}, []condFact{{ifi.Cond, false}}
+	}
+	and, or := true, true
+	var facts []condFact
+	var last ssa.Value
+	for i, e := range phi.Edges {
+		k, isK := e.(*ssa.Const)
+		if !isK || k.Value == nil {
+			last = e
+			continue
+		}
+		if k.Value.ExactString() == "true" {
+			and = false
+		} else {
+			or = false
+		}
+		// the short-circuit edge comes straight from the block that tested an earlier operand; on
+		// the definite edge of the phi that test took its other edge (into the rhs block)
+		pred := phi.Block().Preds[i]
+		pif, ok := pred.Instrs[len(pred.Instrs)-1].(*ssa.If)
+		if !ok {
+			return []condFact{{ifi.Cond, true}}, []condFact{{ifi.Cond, false}}
+		}
+		pt, pf := condAtoms(pif)
+		if pred.Succs[0] == phi.Block() {
+			facts = append(facts, pf...) // rhs is the false successor
+		} else {
+			facts = append(facts, pt...)
+		}
+	}
+	if last == nil || and == or {
+		return []condFact{{ifi.Cond, true}}, []condFact{{ifi.Cond, false}}
+	}
+	lt, lf := condAtoms(&ssa.If{Cond: last})
+	if and {
+		return append(facts, lt...), nil
+	}
+	return nil, append(facts, lf...)
 }
 
 // MustPassResult is the outcome for one target.
